@@ -134,6 +134,31 @@ def run(ctx):
     for c in spl:
         d = expr(rc, c.args[1])
         res.check(re.search(r"^encode_utf8\(get_value_delimiter\(arg\)#Some\.0", d) is not None, "R2.4", "split-only-at-declared-delimiter", c.where(), "values split only at the arg's declared delimiter", "react splits at %s" % d[:80])
+    # every piece of the split is kept: the only thing between split() and the value list is the to-owned map
+    exts = [c for c in rc.calls_to(r"Extend(<[^>]*>)?>?::extend$", r"Iterator::collect$") if "split(" in " ".join(expr(rc, a) for a in c.args)]
+    res.floor("R2.4", "consumer of the delimiter split in react", len(exts), 1)
+    for c in exts:
+        e = [expr(rc, a) for a in c.args if "split(" in expr(rc, a)][0]
+        okk = re.fullmatch(r"map\(split\(next\(into_iter\(enumerate\(into_iter\(raw_vals\)\)\)\)#Some\.0\.1,encode_utf8\(.*\)\),closure\(\)\)", e) is not None
+        cbs = [cb for m_ in rc.calls_to(r"Iterator::map$") if expr(rc, m_.args[0]).startswith("split(") for cb in closure_bodies(fx, m_)]
+        okc = bool(cbs) and all(len([x for x in cb.calls() if not sp_macro(x.sp)]) == 1 and cb.calls()[0].is_(r"to_owned$|to_os_string$") for cb in cbs)
+        res.check(okk and okc, "R2.4", "split-pieces-all-kept", c.where(), "values.extend(raw_val.split(delim).map(to_owned)): every piece, empty ones included, becomes a value",
+                  "pieces of a delimited value are filtered or rewritten before they are stored: %s" % e[:140])
+    # siblings: the `prior argument accepts hyphen values` guard covers the same parse states for long and short tokens
+    sets_ = {}
+    for fn_ in ("parse_long_arg", "parse_short_arg"):
+        b_ = fx.body("clap_builder::parser::parser::Parser::" + fn_)
+        vs_ = set()
+        for c in b_.calls_to(r"Arg::is_allow_hyphen_values_set$"):
+            if expr(b_, c.args[0]) == "index(self.cmd,opt)":
+                vs_ |= set(m_.group(1) for g in guard_strs(b_, c.bb) for m_ in [re.fullmatch(r"V(\d+):parse_state", g)] if m_)
+        sets_[fn_] = vs_
+    names = enum_variants(fx, "parser::parser::ParseState")
+    pretty = lambda vs_: sorted(names[int(v)] if names and int(v) < len(names) else v for v in vs_)
+    want = set(str(names.index(n)) for n in ("Opt", "Pos")) if names and "Opt" in names and "Pos" in names else None
+    res.check(sets_["parse_long_arg"] == sets_["parse_short_arg"] and (want is None or sets_["parse_long_arg"] == want), "R2.4", "hyphen-value-precedence-siblings", "clap_builder/src/parser/parser.rs",
+              "prior hyphen-accepting argument (pending option or positional) takes `--x` and `-x` alike: states %s" % pretty(sets_["parse_long_arg"]),
+              "parse_long_arg yields to a prior allow_hyphen_values argument in states %s, parse_short_arg in %s: `--flag` and `-f` are attributed differently after the same prefix" % (pretty(sets_["parse_long_arg"]), pretty(sets_["parse_short_arg"])))
     # no other rewriting of raw_vals in react
     bad = [c for c in rc.calls() if not sp_macro(c.sp) and re.search(FORBID, c.callee_q or "") and not c.is_(r"error::|to_string$")]
     bad = [c for c in bad if not any(re.match(r"^V[5-8]:get_action", g) for g in guard_strs(rc, c.bb))]
